@@ -3,6 +3,7 @@ from __future__ import annotations
 import z3
 
 from .types import ENUM_MEMBERS, is_ref
+from .qf import qforall
 from .state import V, NONE, State, Unsupported, static, is_static
 from .builtins import BuiltinMixin
 
@@ -69,7 +70,7 @@ def sf_unchanged(eng, st, args, kw, node):
     n0, n1 = o.seq_len(v), st.seq_len(v)
     e0, e1 = o.seq_elems(v), st.seq_elems(v)
     i = z3.Int(eng.ctx.fresh_name("u"))
-    return _b(z3.And(n0 == n1, z3.ForAll([i], z3.Implies(z3.And(i >= 0, i < n0), e0[i] == e1[i]), patterns=[e1[i]])))
+    return _b(z3.And(n0 == n1, qforall([i], z3.Implies(z3.And(i >= 0, i < n0), e0[i] == e1[i]), patterns=[e1[i]])))
 
 
 def sf_heap_unchanged(eng, st, args, kw, node):
@@ -105,7 +106,7 @@ def sf_heap_unchanged(eng, st, args, kw, node):
         guard = z3.And(x >= 0, x < o.alloc)
         if fname in excl_self:
             guard = z3.And(guard, x != st.env["self"].z)
-        conj.append(z3.ForAll([x], z3.Implies(guard, m0[x] == m1[x]), patterns=[m1[x]]))
+        conj.append(qforall([x], z3.Implies(guard, m0[x] == m1[x]), patterns=[m1[x]]))
     return _b(z3.And(*conj) if conj else z3.BoolVal(True))
 
 
@@ -243,7 +244,7 @@ def space_of(eng, st, task: V, p: V):
     el = st.seq_elems(p)
     i = z3.Int(eng.ctx.fresh_name("sp"))
     dim = st.read_field(task, "space_dimension").z
-    return z3.And(n == dim, z3.ForAll([i], z3.Implies(z3.And(i >= 0, i < n), dom(flat_var(task.z, i), el[i])),
+    return z3.And(n == dim, qforall([i], z3.Implies(z3.And(i >= 0, i < n), dom(flat_var(task.z, i), el[i])),
                                       patterns=[el[i]]))
 
 
@@ -353,7 +354,7 @@ def sf_lists_unchanged_except(eng, st, args, kw, node):
             continue
         x = z3.Int(eng.ctx.fresh_name("l"))
         guard = z3.And(x >= 0, x < o.alloc, *[x != a.z for a in args])
-        conj.append(z3.ForAll([x], z3.Implies(guard, m0[x] == m1[x]), patterns=[m1[x]]))
+        conj.append(qforall([x], z3.Implies(guard, m0[x] == m1[x]), patterns=[m1[x]]))
     return _b(z3.And(*conj) if conj else z3.BoolVal(True))
 
 
@@ -446,3 +447,11 @@ def sf_own_streams(eng, st, args, kw, node):
 
 
 BuiltinMixin.SPEC_FUNCS.update({"own_streams": sf_own_streams})
+
+
+def sf_out(eng, st, args, kw, node):
+    """the returned value (contracts of functions that have a parameter called `result`)"""
+    return st.env["__ret__"]
+
+
+BuiltinMixin.SPEC_FUNCS.update({"out": sf_out})
